@@ -135,6 +135,12 @@ def gen_arith(chk, scale):
             tgt = C.align(tag, C.valid_fields(rng, year=rng.choice([I64MAX, I64MIN, I64MAX - 1, I64MIN + 1])))
             k = C.unit_num(tag, tgt) - C.unit_num(tag, a)
         else: k = rng.randrange(-100000, 100000)
+        if rng.random() < 0.12:
+            # whole 400-year cycles (146097 days) in the unit of the alignment, give or take a little: the day count and the
+            # carry from the finer fields then leave remainders of either sign close to a full cycle
+            per_day = {'second': 86400, 'minute': 1440, 'hour': 24, 'day': 1}.get(tag)
+            if per_day:
+                k = rng.choice([1, -1]) * rng.choice([1, 1, 2, 3, 7]) * 146097 * per_day + rng.choice([0, 1, -1, per_day, -per_day, rng.randrange(-3 * per_day, 3 * per_day + 1)])
         k = min(max(k, I64MIN), I64MAX)
         ops.append((rng.choice(['add', 'sub']), tag, a, k))
     for _ in range(n // 2):
